@@ -653,6 +653,15 @@ var modFileTexts = []string{
 }
 
 func mutateText(r *rng, s string) string {
+	if r.chance(3) {
+		// a very long line (beyond 64 KiB buffer defaults): a comment, so the
+		// document means the same
+		lines := strings.Split(s, "\n")
+		i := r.intn(len(lines) + 1)
+		long := "# " + strings.Repeat("long comment ", 5400)
+		lines = append(lines[:i], append([]string{long}, lines[i:]...)...)
+		return strings.Join(lines, "\n")
+	}
 	switch r.intn(7) {
 	case 0: // truncate
 		if len(s) > 2 {
